@@ -16,7 +16,8 @@ pub enum Event<'a> {
     /// An erroring attempt found itself at the commit head (decides fallback / fatal).
     ErrorAtHead { txid: usize, invalid_tx: bool },
     Validate { txid: usize, incarnation: usize, ts: usize, ok: bool },
-    Rewind { index: usize, ts: usize },
+    /// emitted immediately after the cursor rewind took effect (no schedule point in between)
+    Rewind { index: usize, ts: usize, previous: usize },
     Finality { txid: usize, unconfirmed_ts: usize, lower_ts: usize },
     /// Ordered commit is about to apply `state` (deferred reward already folded in) for `txid`.
     Commit { txid: usize, result: &'a ExecutionResult, state: &'a EvmState },
@@ -69,7 +70,7 @@ pub fn event(e: Event<'_>) {
         Event::Validate { txid, incarnation, ts, ok } => {
             0x04_0000 + (*txid as u64) * 4096 + (*incarnation as u64) * 2 + *ok as u64 + ((*ts as u64) << 24)
         }
-        Event::Rewind { index, ts } => 0x05_0000 + *index as u64 + ((*ts as u64) << 24),
+        Event::Rewind { index, ts, previous } => 0x05_0000 + *index as u64 + ((*ts as u64) << 24) + ((*previous as u64) << 48),
         Event::Finality { txid, unconfirmed_ts, lower_ts } => {
             0x06_0000 + *txid as u64 + ((*unconfirmed_ts as u64) << 24) + ((*lower_ts as u64) << 44)
         }
